@@ -796,6 +796,55 @@ def supply_correspond(ctx, corr, days, shard=200):
             corr.mismatches.append({"kind": "coverage", "what": "no traced day for the uptake-limit class " + need})
 
 
+def pool_correspond(ctx, corr, days, shard=200):
+    """what the organic pools receive from the crop (RootDistModel.pools_after): NFOS / NAOS of the rooted layers after PhytoOut on every
+    emitted grown day of an annual crop (the regrowth branch of permanent crops adds further terms and is outside the claim)"""
+    pts = [d for d in days if d["grown"] and "p_n" in d and d["crop"] not in ("GR", "GRE", "AA")]
+    for d in pts:
+        if not d["p_rest_same"]:
+            corr.mismatches.append({"kind": "pool-inputs", "what": "PhytoOut changed an organic pool below the rooted layers", "crop": d["crop"], "zeit": d["zeit"], "line": d["line"]})
+            break
+    def rec(d):
+        n_org = min(d["nrkom"], 3)
+        dg = d["o_dgorg"][1:n_org]
+        return ("{| plo_dgorgs := %s; plo_gehalt := %s; plo_dt := %s; plo_wumas := %s; plo_wumalt := %s; plo_wugeh := %s; plo_shares := %s; "
+                "plo_nfos := %s; plo_naos := %s; plo_o_nfos := %s; plo_o_naos := %s |}"
+                % (fls(dg), fl(d["gehalt"]), fl(d["dt"]), fl(d["o_wumas"]), fl(d["r_wumalt"]), fl(d["r_wugeh"]), fls(d["r_o_wuant"]),
+                   fls(d["p_nfos0"]), fls(d["p_naos0"]), fls(d["p_o_nfos"]), fls(d["p_o_naos"])))
+    recs = [rec(d) for d in pts]
+    items = []
+    for k in range(0, len(recs), shard):
+        body = HDR + ["Definition cases : list pool_obs := [\n%s\n]." % ";\n".join(recs[k:k + shard]),
+                      "Definition M := Eval vm_compute in pool_mismatches %d%%nat cases." % k, "Print M."]
+        items.append(("Cases_c09pool_%d" % (k // shard), "\n".join(body) + "\n"))
+    for nm, rc2, o in ctx.coq_eval_many(items, timeout=900):
+        m = re.search(r"M\s*=\s*(.*?)\s*:\s*list \(nat \* nat\)", o, re.S)
+        if rc2 != 0 or not m:
+            corr.mismatches.append({"kind": "coq-eval", "shard": nm, "output": o[-1500:]})
+            continue
+        pairs = re.findall(r"\(\s*(\d+)(?:%nat)?\s*,\s*(\d+)(?:%nat)?\s*\)", m.group(1))
+        if m.group(1).strip() != "[]" and not pairs:
+            corr.mismatches.append({"kind": "coq-eval", "shard": nm, "output": o[-1500:]})
+        for idx, mask in pairs[:10]:
+            d = pts[int(idx)]
+            corr.mismatches.append({"kind": "pool-input-kernel", "differs": [n for j, n in enumerate(["NFOS", "NAOS"]) if int(mask) >> j & 1],
+                                    "crop": d["crop"], "zeit": d["zeit"], "line": d["line"],
+                                    "case": {k: d[k] for k in d if k.startswith("p_") or k in ("o_dgorg", "gehalt", "o_wumas", "r_wumalt", "r_wugeh", "nrkom")}})
+    corr.cases += len(recs)
+
+    def hv(s):
+        try:
+            return float.fromhex(s)
+        except ValueError:
+            return float("nan")
+    corr.dist["pool-input-days"] = len(recs)
+    corr.dist["pool-input:dead-roots"] = sum(1 for d in pts if hv(d["o_wumas"]) < hv(d["r_wumalt"]))
+    corr.dist["pool-input:dead-leaves"] = sum(1 for d in pts if any(hv(x) > 0 for x in d["o_dgorg"][1:3]))
+    for need in ("dead-roots", "dead-leaves"):
+        if pts and not corr.dist["pool-input:" + need]:
+            corr.mismatches.append({"kind": "coverage", "what": "no traced day with " + need})
+
+
 def dl_run(ctx):
     return waterlib.run_harness(ctx, "c09dl", ["-seed", str(ctx.seed), "-n", "4000" if ctx.thorough else "500"])
 
@@ -867,6 +916,7 @@ def correspond(ctx):
     assim_correspond(ctx, c, days)
     radia_correspond(ctx, c, days)
     supply_correspond(ctx, c, days)
+    pool_correspond(ctx, c, days)
     seen = set()
     for d in days:
         c.bump("crop=" + d["crop"])
